@@ -124,8 +124,8 @@ pub async fn probe_listener(addr: std::net::SocketAddr) -> Vec<Tok> {
         use tokio::io::{AsyncReadExt, AsyncWriteExt};
         // three connections, each with the random its ClientHello happens to carry
         let mut out = vec![];
-        // the fourth one sends its ClientHello spread over two TLS records: the listener cannot read the random
-        // ahead of the handshake then (reported as an empty random), although the handshake itself is fine
+        // the fourth one sends its ClientHello spread over two TLS records (the random reported is the one of the ClientHello as the
+        // TLS library wrote it, before it was re-framed)
         for attempt in 0..4 {
             let (tls, wire) = crate::front::tls_connect_tap_opt(addr, "localhost", &[b"http/1.1"], attempt == 3).await;
             let mut ok = 0u128;
@@ -143,7 +143,7 @@ pub async fn probe_listener(addr: std::net::SocketAddr) -> Vec<Tok> {
             }
             let wire = wire.lock().unwrap().clone();
             // record header (5) + handshake header (4) + version (2), then the 32 bytes of the random
-            let random = if attempt < 3 && wire.len() >= 43 && wire[0] == 0x16 && wire[5] == 1 { wire[11..43].to_vec() } else { vec![] };
+            let random = if wire.len() >= 43 && wire[0] == 0x16 && wire[5] == 1 { wire[11..43].to_vec() } else { vec![] };
             out.push(vec![ok]);
             out.push(tok(&random));
         }
